@@ -26,6 +26,7 @@ type Alphabet struct {
 	Cancellers   []string
 	MaxK         int
 	Donate       []Op // donation templates (AID filled per auction)
+	ModRejects   bool // include one invalid modification per rejection reason for every bid
 	MsgAddAllow  bool // include MsgAddAllowedBidder by every bidder at every state (C10)
 	Rejects      bool // include representative invalid ops while the auction is waiting or open
 	RejectsTerm  bool // ... and on vesting / finished / cancelled auctions too
@@ -77,7 +78,15 @@ func (al *Alphabet) Menu(st *ref.State, bud Budget) []Op {
 				ops = append(ops, Op{Kind: "msg_add_allowed", AID: a.ID, Bidder: b, Max: "1", Budget: "msgallow"})
 			}
 		}
-		// bids
+		// bids (representatives offered while the auction is not open are expected to be rejected and
+		// therefore consume no budget)
+		bb, mb, cb := "bid", "mod", "cancel"
+		if !open {
+			bb, mb = "", ""
+		}
+		if a.Status != ref.StatusStandBy {
+			cb = ""
+		}
 		if open || rej {
 			for bi, b := range al.Bidders {
 				if !open && bi > 0 {
@@ -89,8 +98,8 @@ func (al *Alphabet) Menu(st *ref.State, bud Budget) []Op {
 						if !open && ai > 0 {
 							break
 						}
-						ops = append(ops, Op{Kind: "place", Signer: b, AID: a.ID, BidType: ref.BidFixed, Price: price, Denom: a.PayDenom, Amt: amt, Budget: "bid"})
-						ops = append(ops, Op{Kind: "place", Signer: b, AID: a.ID, BidType: ref.BidFixed, Price: price, Denom: a.SellDenom, Amt: amt, Budget: "bid"})
+						ops = append(ops, Op{Kind: "place", Signer: b, AID: a.ID, BidType: ref.BidFixed, Price: price, Denom: a.PayDenom, Amt: amt, Budget: bb})
+						ops = append(ops, Op{Kind: "place", Signer: b, AID: a.ID, BidType: ref.BidFixed, Price: price, Denom: a.SellDenom, Amt: amt, Budget: bb})
 					}
 				} else {
 					for pi, p := range al.BatchPrices {
@@ -101,13 +110,13 @@ func (al *Alphabet) Menu(st *ref.State, bud Budget) []Op {
 							if !open && ai > 0 {
 								break
 							}
-							ops = append(ops, Op{Kind: "place", Signer: b, AID: a.ID, BidType: ref.BidWorth, Price: p, Denom: a.PayDenom, Amt: amt, Budget: "bid"})
+							ops = append(ops, Op{Kind: "place", Signer: b, AID: a.ID, BidType: ref.BidWorth, Price: p, Denom: a.PayDenom, Amt: amt, Budget: bb})
 						}
 						for ai, amt := range al.ManyAmts {
 							if !open && ai > 0 {
 								break
 							}
-							ops = append(ops, Op{Kind: "place", Signer: b, AID: a.ID, BidType: ref.BidMany, Price: p, Denom: a.SellDenom, Amt: amt, Budget: "bid"})
+							ops = append(ops, Op{Kind: "place", Signer: b, AID: a.ID, BidType: ref.BidMany, Price: p, Denom: a.SellDenom, Amt: amt, Budget: bb})
 						}
 					}
 				}
@@ -132,15 +141,51 @@ func (al *Alphabet) Menu(st *ref.State, bud Budget) []Op {
 							continue
 						}
 						n++
-						ops = append(ops, Op{Kind: "modify", Signer: owner, AID: a.ID, BidID: b.ID, Price: p, Denom: b.Denom, Amt: amt, Budget: "mod"})
+						ops = append(ops, Op{Kind: "modify", Signer: owner, AID: a.ID, BidID: b.ID, Price: p, Denom: b.Denom, Amt: amt, Budget: mb})
 					}
+				}
+			}
+		}
+		if al.ModRejects && open {
+			for _, b := range st.Bids[a.ID] {
+				owner := world.NameOf(b.Bidder)
+				other := ""
+				for _, x := range al.Bidders {
+					if x != owner {
+						other = x
+						break
+					}
+				}
+				up := new(big.Int).Add(b.Amt, big.NewInt(1)).String()
+				hi := ratStr(new(big.Rat).Add(b.Price, big.NewRat(1, 1)))
+				mk := func(signer, price, denom, amt, tag string) {
+					ops = append(ops, Op{Kind: "modify", Signer: signer, AID: a.ID, BidID: b.ID, Price: price, Denom: denom, Amt: amt, Budget: "mod", Tag: tag})
+				}
+				if other != "" {
+					mk(other, hi, b.Denom, up, "not-owner")
+				}
+				mk("out1", hi, b.Denom, up, "outsider")
+				mk(owner, ratStr(b.Price), b.Denom, b.Amt.String(), "unchanged")
+				if b.Amt.Cmp(big.NewInt(1)) > 0 {
+					mk(owner, hi, b.Denom, new(big.Int).Sub(b.Amt, big.NewInt(1)).String(), "lower-amount")
+				}
+				lowP := new(big.Rat).Quo(b.Price, big.NewRat(2, 1))
+				mk(owner, lowP.FloatString(18), b.Denom, up, "lower-price")
+				wrong := a.SellDenom
+				if b.Denom == a.SellDenom {
+					wrong = a.PayDenom
+				}
+				mk(owner, hi, wrong, up, "wrong-denom")
+				if a.Type == ref.TypeBatch {
+					mk(owner, hi, b.Denom, up, "valid-both-up")
+					ops = append(ops, Op{Kind: "modify", Signer: owner, AID: a.ID, BidID: b.ID + 50, Price: hi, Denom: b.Denom, Amt: up, Budget: "mod", Tag: "no-such-bid"})
 				}
 			}
 		}
 		// cancel
 		for _, c := range al.Cancellers {
 			if a.Status == ref.StatusStandBy || rej {
-				ops = append(ops, Op{Kind: "cancel", Signer: c, AID: a.ID, Budget: "cancel"})
+				ops = append(ops, Op{Kind: "cancel", Signer: c, AID: a.ID, Budget: cb})
 			}
 		}
 		for _, d := range al.Donate {
